@@ -2,5 +2,6 @@
 
 PROPERTIES = {
     'C01': dict(level='proof', verus=['rlabels'], kani=[], out=[]),
-    'C16': dict(level='proof', verus=['rlabels'], kani=[], out=[]),
+    'C02': dict(level='proof', verus=['cwrite', 'wjump'], kani=[], out=[]),
+    'C16': dict(level='proof', verus=['rlabels', 'cwrite', 'wjump'], kani=[], out=[]),
 }
